@@ -88,6 +88,11 @@ def name_of(path):
     return '_'.join('S%d' % i for i in path)
 
 
+def has_handler(n):
+    """the state has (or gets, by dynamic registration) on_timeout handlers"""
+    return n['timeout'] > 0 or bool(n.get('zero_with_handler'))
+
+
 def leaf_closure(nd, sid):
     """the chain of initial children entered below state sid"""
     out = []
@@ -176,7 +181,7 @@ def enc_run(case):
     out = [len(nd)]
     for sid in sorted(nd):
         n = nd[sid]
-        out += [sid, n['timeout']] + ([1, n['action']] if n['action'] is not None and n['timeout'] > 0 else [0]) \
+        out += [sid, n['timeout']] + ([1, n['action']] if n['action'] is not None and has_handler(n) else [0]) \
             + [1 if n['raises'] else 0]
     out += [1 if case['on_exc'] else 0, 1 if case['cls'] in ASYNC_CLASSES else 0]
     tbl = resolve_table(case)
@@ -201,21 +206,39 @@ def enc_run(case):
             out += [0, len(op[1])]
             for m, e in op[1]:
                 out += [m, e]
+        elif op[0] == 'setT':
+            out += [2, op[1], op[2]]
         else:
             out += [1, op[1], op[2]]
     return out
 
 
 def enc_mon(case, recs):
+    """the observation cut into segments at the assignments to state.timeout, each with the timeouts in force"""
     nd = nodes(case)
-    out = [len(nd)]
-    for sid in sorted(nd):
-        out += [sid, nd[sid]['timeout']]
-    out.append(1 if (case['on_exc'] and case['cls'] in ASYNC_CLASSES) else 0)
-    out.append(len(recs))
+    tmo = {sid: nd[sid]['timeout'] for sid in nd}
+    segs, cur = [], []
     for r in recs:
-        out += list(r)
+        if r[0] == 'setT':
+            segs.append((dict(tmo), cur))
+            cur = []
+            tmo[r[1]] = r[2]
+        else:
+            cur.append(r)
+    segs.append((dict(tmo), cur))
+    out = [1 if (case['on_exc'] and case['cls'] in ASYNC_CLASSES) else 0, len(segs)]
+    for t, rs in segs:
+        out.append(len(t))
+        for sid in sorted(t):
+            out += [sid, t[sid]]
+        out.append(len(rs))
+        for r in rs:
+            out += list(r)
     return out
+
+
+def drop_marks(recs):
+    return [r for r in recs if r[0] != 'setT']
 
 
 def parse_run(ans):
@@ -235,7 +258,9 @@ def parse_run(ans):
 def show(recs):
     out, now = [], 0
     for k, m, s in recs:
-        if k == TICK:
+        if k == 'setT':
+            out.append('S%d.timeout=%d' % (m, s))
+        elif k == TICK:
             now += 1
             out.append('t=%d' % now)
         else:
@@ -271,7 +296,10 @@ def _state_defs(case, ns, is_async):
             d['on_enter'] = ['cb_enter_%d' % n['id']]
         if n.get('cb_exit'):
             d['on_exit'] = ['cb_exit_%d' % n['id']]
-        if n['timeout'] > 0:
+        if n['timeout'] > 0 and n.get('reg'):
+            d['timeout'] = n['timeout']
+            d['on_timeout'] = []          # the handlers arrive later, by dynamic registration
+        elif n['timeout'] > 0:
             d['timeout'] = n['timeout']
             d['on_timeout'] = ['rec_pre_%d' % n['id']] * (n['ncb'] - 1) + ['rec_timeout_%d' % n['id']]
         elif n.get('zero_with_handler'):
@@ -431,6 +459,9 @@ def _model_class(case, run, is_async):
             setattr(Model, 'cb_exit_%d' % sid, mk_cb(n['cb_exit'], sid, None))
         setattr(Model, 'rec_pre_%d' % sid, mk_pre(sid))
         setattr(Model, 'rec_timeout_%d' % sid, mk_timeout(sid))
+        if n.get('reg') == 'model' and n['timeout'] > 0:
+            # the model's convenience method: add_model registers it as an on_timeout callback of the state
+            setattr(Model, 'on_timeout_' + name_of(paths(case)[sid]), mk_timeout(sid))
     Model.rec_exception = rec_exception
     return Model
 
@@ -471,6 +502,7 @@ def _machine(case, run):
                                                initial=name_of(pt[init]), auto_transitions=False,
                                                ignore_invalid_triggers=True, queued=case['queued'],
                                                send_event=case['send_event'], **kw))
+        _register_handlers(case, machine)
         return machine, models
     machine = TimeoutMachine(model=None, states=_state_defs(case, case['states'], is_async), transitions=transitions,
                              initial=name_of(pt[first]), auto_transitions=False, ignore_invalid_triggers=True,
@@ -478,7 +510,18 @@ def _machine(case, run):
     for mo, (_m, init) in zip(models, case['models']):
         machine.add_model(mo, initial=name_of(pt[init]))
     run.machines = [machine]
+    _register_handlers(case, machine)
     return machine, models
+
+
+def _register_handlers(case, machine):
+    """the other two routes by which a state created with an empty on_timeout list gets its handlers"""
+    pt = paths(case)
+    for sid, n in nodes(case).items():
+        if n['timeout'] > 0 and n.get('reg') == 'machine':
+            getattr(machine, 'on_timeout_' + name_of(pt[sid]))('rec_timeout_%d' % sid)
+        elif n['timeout'] > 0 and n.get('reg') == 'state':
+            machine.get_state(name_of(pt[sid])).add_callback('timeout', 'rec_timeout_%d' % sid)
 
 
 def _sync_trigger(run, model, name):
@@ -506,6 +549,10 @@ def run_threads(case):
             if len(clock.timers) > RUNAWAY:
                 run.bad.append('more than %d timers were started' % RUNAWAY)
                 break
+            if op[0] == 'setT':
+                machine.get_state(name_of(paths(case)[op[1]])).timeout = op[2]
+                run.recs.append(('setT', op[1], op[2]))
+                continue
             if op[0] == 'tick':
                 clock.tick()
                 for m, e in op[1]:
@@ -563,6 +610,11 @@ def run_async(case):
             if len(asyncio.all_tasks(loop)) > RUNAWAY:
                 run.bad.append('more than %d tasks are pending' % RUNAWAY)
                 break
+            if op[0] == 'setT':
+                machine.get_state(name_of(paths(case)[op[1]])).timeout = op[2]
+                run.recs.append(('setT', op[1], op[2]))
+                k += 1
+                continue
             if op[0] == 'tick':
                 if op[1]:
                     raise common.MachineryError('early events are not realisable under asyncio')
@@ -693,7 +745,8 @@ def judge(case, model_ans, mon_ans, run):
                                                                  'model_trace': show(mrecs)},
                            signature='C17.monitor'))
     if not unordered:
-        a, b = (per_model_canon(mrecs), per_model_canon(recs)) if is_async else (mrecs, recs)
+        plain = drop_marks(recs)
+        a, b = (per_model_canon(mrecs), per_model_canon(plain)) if is_async else (mrecs, plain)
         fin = expected_final(case, curs)
         if a != b or fin != list(run.final):
             k = next((i for i, (x, y) in enumerate(zip(a, b)) if x != y), min(len(a), len(b)))
@@ -776,6 +829,11 @@ def gen_case(rng, cls):
             n['ncb'] = 2 if rng.random() < 0.25 else 1
             if rng.random() < 0.55:
                 n['action'] = rng.randrange(n_events)
+            if rng.random() < 0.3:
+                # created with an empty on_timeout list; the handler is registered afterwards through the model's
+                # on_timeout_<state> method / machine.on_timeout_<state>(cb) / state.add_callback('timeout', cb)
+                n['reg'] = rng.choice(['model', 'machine', 'state'])
+                n['ncb'] = 1
             if rng.random() < (0.25 if is_async else 0.1):
                 n['raises'] = True
                 n['raise_kind'] = rng.choice(RAISE_KINDS)     # Exception / other BaseException / CancelledError
@@ -854,6 +912,12 @@ def gen_case(rng, cls):
             hist.append(['ev', m, e])
         elif rng.random() < 0.3:       # a second early event at the same instant
             hist[-1][1].append([rng.randrange(n_models), rng.randrange(n_events)])
+    handlers = [sid for sid in all_ids if has_handler(nd[sid])]
+    if handlers and rng.random() < 0.5:
+        # `timeout` is a public attribute: switch it off / change it somewhere in the middle of the history
+        for _ in range(rng.randint(1, 3)):
+            pos = rng.randrange(len(hist) + 1)
+            hist.insert(pos, ['setT', rng.choice(handlers), rng.choice([0, 0, 1, 2, 3, 5])])
     if rng.random() < 0.5:
         # enter, wait a little, leave and come back within one instant, wait less than the timeout, leave, wait
         m = rng.randrange(n_models)
@@ -947,7 +1011,7 @@ def shrink_steps(case):
         if c.get('pks'):
             c['pks'] = c['pks'][:len(c['models'])]
         c['history'] = [op for op in ([o[0], [p for p in o[1] if p[0] != last]] if o[0] == 'tick' else o
-                                      for o in c['history']) if op[0] == 'tick' or op[1] != last]
+                                      for o in c['history']) if op[0] != 'ev' or op[1] != last]
         yield c
     for i in range(len(case['transitions'])):
         if len(case['transitions']) > 1:
@@ -979,7 +1043,7 @@ def shrink_steps(case):
             yield c
     for sid in sorted(nodes(case)):
         for key, val in (('raises', False), ('action', None), ('ncb', 1), ('cb_enter', None), ('cb_exit', None),
-                         ('raise_kind', 'exc')):
+                         ('raise_kind', 'exc'), ('reg', None)):
             if nodes(case)[sid].get(key, val) != val:
                 c = copy.deepcopy(case)
                 nodes(c)[sid][key] = val
@@ -1042,7 +1106,8 @@ class C17(runner.Check):
                 'TM.C17_once', 'TM.C17_never_after_exit', 'TM.C17_restart_on_reenter', 'TM.C17_models_independent',
                 'TM.C17_typed_reachable', 'TM.C17_internal_keeps_timer', 'TM.C17_reject_missing_handler',
                 'TM.C17_async_started_handler_survives', 'TM.C17_async_error_routed',
-                'TM.C17_unbracketed_counterexample', 'TM.C17_coarse_key_counterexample')
+                'TM.C17_unbracketed_counterexample', 'TM.C17_coarse_key_counterexample',
+                'TM.C17_exit_cancels_whatever_is_armed', 'TM.C17_runV_const', 'TM.C17_acceptsV_single')
     rule = ('random machines with Timeout (Machine, HierarchicalMachine, LockedMachine) or AsyncTimeout (AsyncMachine, '
             'HierarchicalAsyncMachine): 2-4 states (nested up to depth 3, compound states with timeouts of their own), '
             'timeouts 0-5, 1-2 on_timeout callbacks that may trigger an event or raise (an Exception, another BaseException, '
@@ -1051,7 +1116,9 @@ class C17(runner.Check):
             '/ on_enter and on_exit callbacks that raise (with and without on_exception), 2-3 events incl. reflexive '
             'and internal transitions, 1-3 models - plain objects, value objects (__eq__/__hash__ on a key, equal and '
             'unequal pairs) or unhashable ones, on one machine or one machine per model sharing the State objects - '
-            'queued or not, send_event on/off; under asyncio the events of one '
+            'queued or not, send_event on/off; timeout states whose handlers are given at construction or - created with an '
+            'empty list - registered afterwards (model method on_timeout_<state>, machine.on_timeout_<state>(cb), '
+            'state.add_callback); history ops that assign state.timeout (0 or another value) between entries and exits; under asyncio the events of one '
             'instant are awaited back to back in one task (no idle loop in between) or one by one; histories of 3-9 (delay, event) '
             'pairs with delays below / equal to / above the timeouts, for the threaded classes also events that win '
             'the tie against a timer due at the same instant; a case is non-trivial when at least one timeout fired '
@@ -1155,6 +1222,10 @@ class C17(runner.Check):
             'enter / exit are observed by a state mixin in front of Timeout / AsyncTimeout (add_state_features(Probe, '
             'Timeout)) that records and delegates, so that states without any callback can be observed',
             'the initial state of a model is set, not entered: no timer runs for it until it is (re-)entered',
+            'state.timeout assigned at runtime: an entry uses the value valid at that moment, a pending timer keeps the '
+            'deadline it was armed with, an exit cancels whatever is armed; the main theorem C17_model_accepted is stated '
+            'for histories without such assignments (C17_runV_const), histories with them are tied by trace equality '
+            'with the model (runV) and judged by the segmented acceptor C17.acceptsV',
             'hierarchical cases have no parallel states and declare transitions at root level with full state names',
         ]
 
